@@ -133,12 +133,12 @@ async fn setup(mode: String, args: BArgs) -> Made {
     (r, jh)
 }
 
-fn run_case(c: Case, t_ms: u64, other: Handle) -> Value {
-    let t = Duration::from_millis(t_ms);
+fn run_case(c: Case, t_us: u64, other: Handle) -> Value {
+    let t = Duration::from_micros(t_us);
     let gate = Arc::new(Notify::new());
     let handled = Arc::new(AtomicU64::new(0));
     let args = BArgs { gate: gate.clone(), handled: handled.clone() };
-    let (tx, rx) = mpsc::channel::<(&'static str, u128)>();
+    let (tx, rx) = mpsc::channel::<(&'static str, u128)>(); // result class, elapsed microseconds (rounded up)
     let (atx, arx) = mpsc::channel::<ActorRef<B>>();
     let (dtx, drx) = mpsc::channel::<()>(); // "the case is over": lets a current-thread driver finish
     let call = {
@@ -146,7 +146,7 @@ fn run_case(c: Case, t_ms: u64, other: Handle) -> Value {
         move |r: ActorRef<B>| {
             let t0 = Instant::now();
             let res = std::panic::catch_unwind(std::panic::AssertUnwindSafe(|| the_call(&r, &c, t))).unwrap_or("panic");
-            let _ = tx.send((res, t0.elapsed().as_millis()));
+            let _ = tx.send((res, t0.elapsed().as_nanos().div_ceil(1000)));
         }
     };
     let mut caller_rt: Option<Runtime> = None;
@@ -194,8 +194,8 @@ fn run_case(c: Case, t_ms: u64, other: Handle) -> Value {
     }
     // a timed call must be back by T (+ slack); an untimed one that has not returned after a while is "blocked"
     let limit = if c.form == "timed" { t + Duration::from_millis(1500) } else { Duration::from_millis(400) };
-    let (res, ms) = match rx.recv_timeout(limit) {
-        Ok((r, ms)) => (r, ms as u64),
+    let (res, us) = match rx.recv_timeout(limit) {
+        Ok((r, us)) => (r, us as u64),
         Err(_) => ("blocked", 0),
     };
     // thaw the actor; a barrier ask tells when everything queued before it has been handled
@@ -215,10 +215,10 @@ fn run_case(c: Case, t_ms: u64, other: Handle) -> Value {
         rt.shutdown_background();
     }
     json!({"cfg": {"ctx": c.ctx, "home": c.home, "mode": c.mode, "api": c.api, "form": c.form, "via": c.via},
-           "res": res, "ms": ms, "delivered": delivered, "t_ms": t_ms})
+           "res": res, "us": us, "delivered": delivered, "t_us": t_us})
 }
 
-pub fn run_blockcases(cases: &[Value], t_ms: u64, par: usize) -> Vec<Value> {
+pub fn run_blockcases(cases: &[Value], t_us: u64, par: usize) -> Vec<Value> {
     let other = Builder::new_multi_thread().worker_threads(4).enable_time().build().unwrap();
     let mut out = Vec::new();
     for chunk in cases.chunks(par.max(1)) {
@@ -227,7 +227,7 @@ pub fn run_blockcases(cases: &[Value], t_ms: u64, par: usize) -> Vec<Value> {
             let g = |k: &str| v["cfg"][k].as_str().unwrap_or("").to_string();
             let c = Case { ctx: g("ctx"), home: g("home"), mode: g("mode"), api: g("api"), form: g("form"), via: g("via") };
             let h = other.handle().clone();
-            hs.push(std::thread::spawn(move || run_case(c, t_ms, h)));
+            hs.push(std::thread::spawn(move || run_case(c, t_us, h)));
         }
         for h in hs {
             if let Ok(v) = h.join() {
